@@ -240,6 +240,12 @@ type monitoredConn struct {
 	conn     *grpc.ClientConn
 	gme      *GCPMultiEndpoint
 	cancel   context.CancelFunc
+
+	// The last state delivered to the multiendpoints by notify. Written holding
+	// gme.mu for reading (only by this conn's monitor), read holding gme.mu for
+	// writing.
+	lastState connectivity.State
+	notified  bool
 }
 
 func newMonitoredConn(endpoint string, conn *grpc.ClientConn, gme *GCPMultiEndpoint) (mc *monitoredConn) {
@@ -266,6 +272,7 @@ func (mc *monitoredConn) notify(state connectivity.State) {
 		mc.gme.mu.RUnlock()
 		return
 	}
+	mc.lastState, mc.notified = state, true
 	for _, me := range mc.gme.mes {
 		me.SetEndpointAvailability(mc.endpoint, state == connectivity.Ready)
 	}
@@ -395,10 +402,16 @@ func (gme *GCPMultiEndpoint) UpdateMultiEndpoints(meOpts *GCPMultiEndpointOption
 	}
 
 	// Trigger status update.
+	// Use the state last delivered by the pool's monitor, not a fresh read: the
+	// monitor only reports deviations from the state it saw last, so a transient
+	// state observed only here would never be corrected. A pool without a
+	// delivered state yet is reported by its monitor right after this update.
 	for e, mc := range gme.pools {
-		s := mc.conn.GetState()
+		if !mc.notified {
+			continue
+		}
 		for _, me := range gme.mes {
-			me.SetEndpointAvailability(e, s == connectivity.Ready)
+			me.SetEndpointAvailability(e, mc.lastState == connectivity.Ready)
 		}
 	}
 	return nil
